@@ -199,14 +199,15 @@ PROPS["C17"] = {
 
 PROPS["C18"] = {
     "level": "model_checking",
-    "claim": "dense ops: depth-bounded explicit-state BFS over sequences of set/flip/clear/copy/copyrows(all index vectors)/copycols(5 column maps)/xor_rows on two real matrices for column counts 1,31,32,33,64,65 against a byte-per-bit model, every cell / row weight / column weight / emptiness / density / row_weight_ignore_first(multiples of 32) / hweight_array compared after every step, under AddressSanitizer; popcount helpers: all 2^32 arguments of of_hweight32, _table, _naive, all 256 of of_hweight8_table, boundary patterns for of_popcount_3 / of_hweight_array; solver: every p x q binary system for q<=p<=4, (5,<=4), (6,<=3) and every 4x4 block embedded at both word boundaries of a 66-column identity-completed system, with and without NULL (zero) right-hand sides, symbol lengths 1,8,9: OK <=> full column rank and the variables equal the known solution",
+    "claim": "dense ops: depth-bounded explicit-state BFS over sequences of set/flip/clear/copy/copyrows(all index vectors)/copycols(5 column maps)/xor_rows on two real matrices for column counts 1,31,32,33,64,65 against a byte-per-bit model, every cell / row weight / column weight / emptiness / density / row_weight_ignore_first(multiples of 32) / hweight_array compared after every step, under AddressSanitizer; popcount helpers: all 2^32 arguments of of_hweight32, _table, _naive, all 256 of of_hweight8_table, boundary patterns for of_popcount_3 / of_hweight_array; solver: every p x q binary system for q<=p<=4, (5,<=4), (6,<=3) and every 4x4 block embedded at both word boundaries of a 66-column identity-completed system, with and without NULL (zero) right-hand sides, symbol lengths 1,8,9: OK <=> full column rank and the variables equal the known solution (right-hand sides given as symbols, with null sums given as NULL for pairwise different variables, and with null sums given as NULL for all-equal variables so that every even-weight equation has no constant term). Large: 12 shapes up to 1000 rows / 4097 columns x 6 content patterns, one script of every dense operation each (set, flip, set 0, xor_rows across the 255/256 row border, copy / copyrows / copycols into used and larger matrices, clear) with all cells, weights, emptiness, density, ignore_first compared after every step; 12 structured system families (triangular, staircase, hashed, duplicate / zero column ...) x 12 sizes q = 9..130 x (p = q, q+3) x symbol lengths 1..1000 x 3 right-hand-side modes",
     "rule": "ops: state = (bit contents of both matrices incl. padding words) reached by an operation history; popcnt: every 32-bit word; solver: every binary matrix of the listed shapes",
     "bounds": {"quick": "ops depth 4; popcnt complete; solver: all shapes, lengths rotated for the two largest shapes, every 4th embedded block", "thorough": "ops depth 5 (ASan) and 6 (plain, 2e6-state cap); solver: all lengths x all matrices x all embedded blocks"},
     "assumptions": ["of_mod2dense_row_weight_ignore_first only for multiples of 32 (undefined otherwise)", "rows of a copycols destination beyond the source's row count are not defined by the operation and are resynchronised"],
     "runs": [{"name": "ops-asan", "src": "h_dense.c", "variant": "asan", "args": ["--mode", "ops"], "args_quick": ["--depth", "4"], "args_thorough": ["--depth", "5"]},
              {"name": "ops-plain", "src": "h_dense.c", "variant": "plain", "args": ["--mode", "ops"], "args_thorough": ["--depth", "6"], "tiers": ("thorough",)},
              {"name": "popcnt", "src": "h_dense.c", "variant": "plain", "args": ["--mode", "popcnt"]},
-             {"name": "solver-asan", "src": "h_dense.c", "variant": "asan", "args": ["--mode", "solver"]}],
+             {"name": "solver-asan", "src": "h_dense.c", "variant": "asan", "args": ["--mode", "solver"]},
+             {"name": "big-asan", "src": "h_dense.c", "variant": "asan", "args": ["--mode", "big"]}],
     "budget": {"quick": 600, "thorough": 3600},
 }
 
